@@ -225,11 +225,11 @@ func (seg *Segment) Match(ctx *types.Context) bool {
 					return true
 				}
 
-				i := strings.Index(ctx.Path[index+len(seg.Suffix):], seg.Suffix)
+				i := strings.Index(ctx.Path[index+1:], seg.Suffix) // 下一个可能与当前位置的 Suffix 重叠
 				if i < 0 {
 					return false
 				}
-				index += i + len(seg.Suffix)
+				index += i + 1
 			}
 		}
 	case Regexp:
